@@ -40,7 +40,7 @@ func ImpliedType(buf []byte) (cty.Type, error) {
 	r := bytes.NewReader(buf)
 	dec := msgpack.NewDecoder(r)
 
-	ty, err := impliedType(dec)
+	ty, err := impliedType(dec, 0)
 	if err != nil {
 		return cty.NilType, err
 	}
@@ -54,7 +54,13 @@ func ImpliedType(buf []byte) (cty.Type, error) {
 	return ty, nil
 }
 
-func impliedType(dec *msgpack.Decoder) (cty.Type, error) {
+// maxNestingDepth is the deepest nesting of arrays and maps that ImpliedType
+// will follow. The type is inferred recursively, so without a limit a few
+// megabytes of nested one-element array headers would exhaust the goroutine
+// stack and crash the program rather than returning an error.
+const maxNestingDepth = 10000
+
+func impliedType(dec *msgpack.Decoder, depth int) (cty.Type, error) {
 	// If this function returns with a nil error then it must have already
 	// consumed the next value from the decoder, since when called recursively
 	// the caller will be expecting to find a following value here.
@@ -95,17 +101,23 @@ func impliedType(dec *msgpack.Decoder) (cty.Type, error) {
 		return cty.String, err
 
 	case msgpackcodes.IsFixedMap(code) || code == msgpackcodes.Map16 || code == msgpackcodes.Map32:
-		return impliedObjectType(dec)
+		if depth >= maxNestingDepth {
+			return cty.NilType, fmt.Errorf("exceeded maximum nesting depth of %d", maxNestingDepth)
+		}
+		return impliedObjectType(dec, depth+1)
 
 	case msgpackcodes.IsFixedArray(code) || code == msgpackcodes.Array16 || code == msgpackcodes.Array32:
-		return impliedTupleType(dec)
+		if depth >= maxNestingDepth {
+			return cty.NilType, fmt.Errorf("exceeded maximum nesting depth of %d", maxNestingDepth)
+		}
+		return impliedTupleType(dec, depth+1)
 
 	default:
 		return cty.NilType, fmt.Errorf("unsupported msgpack code %#v", code)
 	}
 }
 
-func impliedObjectType(dec *msgpack.Decoder) (cty.Type, error) {
+func impliedObjectType(dec *msgpack.Decoder, depth int) (cty.Type, error) {
 	// If we get in here then we've already peeked the next code and know
 	// it's some sort of map.
 	l, err := dec.DecodeMapLen()
@@ -123,7 +135,7 @@ func impliedObjectType(dec *msgpack.Decoder) (cty.Type, error) {
 			return cty.DynamicPseudoType, err
 		}
 
-		aty, err := impliedType(dec)
+		aty, err := impliedType(dec, depth)
 		if err != nil {
 			return cty.DynamicPseudoType, err
 		}
@@ -141,7 +153,7 @@ func impliedObjectType(dec *msgpack.Decoder) (cty.Type, error) {
 	return cty.Object(atys), nil
 }
 
-func impliedTupleType(dec *msgpack.Decoder) (cty.Type, error) {
+func impliedTupleType(dec *msgpack.Decoder, depth int) (cty.Type, error) {
 	// If we get in here then we've already peeked the next code and know
 	// it's some sort of array.
 	l, err := dec.DecodeArrayLen()
@@ -156,7 +168,7 @@ func impliedTupleType(dec *msgpack.Decoder) (cty.Type, error) {
 	etys := make([]cty.Type, 0, preallocLen(l))
 
 	for i := 0; i < l; i++ {
-		ety, err := impliedType(dec)
+		ety, err := impliedType(dec, depth)
 		if err != nil {
 			return cty.DynamicPseudoType, err
 		}
